@@ -648,6 +648,14 @@ def rule_r8(ctx) -> List[R.Inst]:
             f = C.self_attr(t) if isinstance(t, ast.Attribute) else None
             if f and any(C.self_attr(x) == f for b in n.body for x in ast.walk(b)):
                 guarded[f] = n
+            elif isinstance(t, ast.Name):
+                # the test is a local computed from the field (`x = self.f or <fallback>; if x: emit x`): still a test of the field
+                ds = [x.value for x in walk_no_nested(hdr.node) if isinstance(x, ast.Assign) and len(x.targets) == 1 and
+                      isinstance(x.targets[0], ast.Name) and x.targets[0].id == t.id]
+                if len(ds) == 1 and any(isinstance(x, ast.Name) and x.id == t.id for b in n.body for x in ast.walk(b)):
+                    for f2 in sorted({C.self_attr(x) for x in ast.walk(ds[0]) if C.self_attr(x)}):
+                        if isinstance(ds[0], ast.BoolOp) and C.self_attr(ds[0].values[0]) == f2:
+                            guarded.setdefault(f2, n)
     # where a possibly-empty value of the field comes from: a reader default that is an empty literal
     rd = M.fn(BMSMAP + "._read_file_header")
     for f, gnode in sorted(guarded.items()):
